@@ -61,6 +61,17 @@ impl<'a> ParseChain<ActionExprChain> for ActionExprChainBuilder<'a> {
         let mut member_idx = 0;
         let mut wrapper_count = 0isize;
 
+        // `let <pat> =` is taken off by hand: the value behind it is an ordinary expression
+        // (`Expr::Let` takes neither a struct literal nor `||` / `&&` as its value).
+        let let_pat = if input.peek(Token![let]) {
+            input.parse::<Token![let]>()?;
+            let pat: Pat = input.parse()?;
+            input.parse::<Token![=]>()?;
+            Some(pat)
+        } else {
+            None
+        };
+
         loop {
             let Unit {
                 parsed: mut action_expr,
@@ -76,7 +87,17 @@ impl<'a> ParseChain<ActionExprChain> for ActionExprChainBuilder<'a> {
                 // If we have branch starting with `let` pattern,
                 // check if it's correct and then, if it's, associate
                 // it with given branch
-                if let Let(let_expr) = exprs
+                if let Some(pat) = &let_pat {
+                    match pat {
+                        Pat::Ident(pat)
+                            if pat.subpat.is_none()
+                                && syn::parse_str::<syn::Ident>(&pat.ident.to_string()).is_ok() =>
+                        {
+                            chain.set_id(Some(pat.clone()));
+                        }
+                        _ => return Err(input.error("Incorrect `let` pattern")),
+                    }
+                } else if let Let(let_expr) = exprs
                     .first()
                     .cloned()
                     .expect("join: Failed to extract first expr of initial expr. This's a bug, please report it.")
